@@ -169,6 +169,7 @@ def coverOps (op ty : String) (args : List String) : Option OpEval :=
   match op, ty with
   | "cover", "p" => coverOp false args
   | "cover", "r" => coverOp true args
+  | "cover", "b" => coverOp false args
   | "qcover", "n" => qcoverOp args
   | "qcover2", "n" => qcoverOp args
   | _, _ => none
